@@ -219,3 +219,40 @@ func init() {
 		return
 	}
 }
+
+// ---- a history of AuthenticatedDo calls on ONE ClientPeerIDAuth (token cache) ---------------
+func init() {
+	handshake.VerifE2EClientSession = func(priv crypto.PrivKey, host string, ncalls int,
+		beforeCall func(call int), respond func(call int, reqHdr string) (status int, www, info string)) (ids []peer.ID, errs []error) {
+		call := 0
+		ts := httptest.NewServer(http.HandlerFunc(func(w http.ResponseWriter, r *http.Request) {
+			status, www, info := respond(call, r.Header.Get("Authorization"))
+			if www != "" {
+				w.Header().Set("WWW-Authenticate", www)
+			}
+			if info != "" {
+				w.Header().Set("Authentication-Info", info)
+			}
+			w.WriteHeader(status)
+		}))
+		defer ts.Close()
+		auth := httppeeridauth.ClientPeerIDAuth{PrivKey: priv}
+		for call = 0; call < ncalls; call++ {
+			beforeCall(call)
+			req, err := http.NewRequest("GET", ts.URL, nil)
+			if err != nil {
+				ids, errs = append(ids, ""), append(errs, err)
+				continue
+			}
+			req.Host = host
+			req.GetBody = func() (io.ReadCloser, error) { return http.NoBody, nil }
+			p, resp, err := auth.AuthenticatedDo(ts.Client(), req)
+			if resp != nil && resp.Body != nil {
+				io.Copy(io.Discard, resp.Body)
+				resp.Body.Close()
+			}
+			ids, errs = append(ids, p), append(errs, err)
+		}
+		return
+	}
+}
